@@ -232,6 +232,35 @@ theorem thin_hole_family_z (Lx Ly : Nat) (hx : 5 ≤ Lx) (hy : 6 ≤ Ly) :
   ⟨⟨by omega, by omega, by decide⟩,
     rankDeficient_of (commPair Lx Ly 4 ⟨by omega, by omega, by decide⟩) (ThinC.rank_le hx hy)⟩
 
+/-- THE EXACT SET OF RANK-DEFICIENT SIZES (measured on the implementation: GF(2) rank of
+    `stabilizer_matrix` against `n − k` for every size of the family with `Lx ≤ 7`, `Ly, Lz ≤ 9`,
+    `n ≤ 900` — 332 sizes, 40 of them deficient, exactly the ones below; the positive theorem
+    `valid_code_partial` and this negative theorem are the proved part).  The hole of the class has
+    `(Lx − 3) × (Ly − 4) × (Lz − 4)` vertices and is one layer of edges thin in `x` for `Lx = 3`, in `y` for
+    `Ly = 4`, in `z` for `Lz = 4`; a size is deficient iff the hole is thin in one direction and at least
+    two unit cells wide in the other two: with `a, b` the numbers of unit cells of the thin hole in the
+    two wide directions (`(Ly − 5, Lz − 5)`, `(Lx − 4, Lz − 5)`, `(Lx − 4, Ly − 5)`), `a, b ≥ 1`, the measured
+    deficit is `⌈a·b / 2⌉` -/
+def Deficient (Lx Ly Lz : Nat) : Prop :=
+  (Lx = 3 ∧ 6 ≤ Ly ∧ 6 ≤ Lz) ∨ (Ly = 4 ∧ 5 ≤ Lx ∧ 6 ≤ Lz) ∨ (Lz = 4 ∧ 5 ≤ Lx ∧ 6 ≤ Ly)
+
+instance (Lx Ly Lz : Nat) : Decidable (Deficient Lx Ly Lz) := by unfold Deficient; infer_instance
+
+/-- a deficient size is a size of the supported family -/
+theorem deficient_family {Lx Ly Lz : Nat} (h : Deficient Lx Ly Lz) : Family Lx Ly Lz := by
+  unfold Deficient at h; unfold Family; omega
+
+/-- NEGATIVE SIDE, EVERY DEFICIENT SIZE (recorded known finding): commutation and pairing hold, but
+    an undeclared second logical pair exists, every independent family of generators has at most
+    `n − 2` members and the class is not a valid `[[n, 1]]` code (the three thin-hole families
+    together) -/
+theorem deficient_not_valid (Lx Ly Lz : Nat) (h : Deficient Lx Ly Lz) :
+    RankDeficient (lattice Lx Ly Lz) := by
+  rcases h with ⟨rfl, hy, hz⟩ | ⟨rfl, hx, hz⟩ | ⟨rfl, hx, hy⟩
+  · exact (thin_hole_family_x Ly Lz hy hz).2
+  · exact (thin_hole_family_y Lx Lz hx hz).2
+  · exact (thin_hole_family_z Lx Ly hx hy).2
+
 /-! ### non-vacuity -/
 
 example : Family 2 2 3 := by decide
@@ -246,6 +275,8 @@ example : getDeformation "Checkerboard XZZX" [2, 0, 1] = DeformResult.map PauliM
 example : getDeformation "Checkerboard XZZX" [1, 0, 0] = DeformResult.map PauliMap.id := by decide
 example : getDeformation "Checkerboard XZZX" [1, 1, 1] = DeformResult.valueError := by decide
 example : getDeformation "XZZX" [1, 0, 0] = DeformResult.valueError := by decide
+example : Deficient 3 6 6 ∧ Deficient 7 4 9 ∧ Deficient 5 6 4 ∧ ¬ Deficient 4 6 6 ∧ ¬ Deficient 3 5 9 ∧
+    ¬ Deficient 4 4 9 ∧ ¬ Deficient 4 9 4 ∧ ¬ Deficient 3 6 5 := by decide
 example : RankDeficient (lattice 3 7 9) := (thin_hole_family_x 7 9 (by decide) (by decide)).2
 example : RankDeficient (lattice 6 4 6) := (thin_hole_family_y 6 6 (by decide) (by decide)).2
 set_option maxRecDepth 100000 in
